@@ -160,6 +160,52 @@ def _pels(case):
                 ok = False
             recs.append(dict(shape_ok=True, src='stdout-' + mode, inl=[], outl=[], parses=ok, roundtrip=ok,
                              text=(res['out'] or '')[:300]))
+        # what -j WRITES parses back too - whatever already sits under the result file's name (nothing, the
+        # result of an earlier run with other options, a shorter or a longer file)
+        outdir = os.path.join(seams.scratch_dir('c06'), 'out')
+        shutil.rmtree(outdir, ignore_errors=True)
+        os.makedirs(outdir)
+        runs = [(['-p', d, '-j', '-o', outdir, '-E'], 'fresh')]
+        runs.append((['-p', d, '-j', '-o', outdir, '-E'] + rng.choice([['-P'], [], ['-P']]),
+                     rng.choice(['rerun', 'longer', 'shorter', 'mixed'])))
+        if rng.random() < .5:
+            runs.append((['-p', d, '-j', '-o', outdir, '-E'], 'mixed'))
+        for argv, pre in runs:
+            if pre != 'fresh':
+                for fn in sorted(os.listdir(outdir)):
+                    fp = os.path.join(outdir, fn)
+                    how = pre if pre != 'mixed' else rng.choice(['rerun', 'longer', 'shorter'])
+                    if how == 'longer':
+                        with open(fp, 'a') as f:
+                            f.write(rng.choice(['\n', ' ', '{"old": "%s"}\n' % ('x' * rng.randrange(1, 3000)),
+                                                '}' * rng.randrange(1, 40)]) * rng.randrange(1, 4))
+                    elif how == 'shorter':
+                        with open(fp, 'r+') as f:
+                            f.truncate(rng.randrange(0, max(1, os.path.getsize(fp))))
+            del calls[:]
+            seams.run_cli(argv)
+            wants = {}
+            for c in calls:
+                try:
+                    doc = json.loads(c[0])
+                    wants[str(doc['Private Header']['Entry Id'])[2:].upper()] = doc
+                except (ValueError, KeyError, TypeError):
+                    pass
+            names = sorted(os.listdir(outdir))
+            for fn in names:
+                with open(os.path.join(outdir, fn), encoding='utf-8', errors='replace') as f:
+                    text = f.read()
+                eid = fn.split('.')[-2].upper() if fn.count('.') >= 2 else ''
+                try:
+                    back = json.loads(text)
+                    parses, rt = True, eid in wants and back == wants[eid]
+                except ValueError:
+                    parses, rt = False, False
+                recs.append(dict(shape_ok=True, src='jsonfile-' + pre, inl=[], outl=[], parses=parses, roundtrip=rt,
+                                 text=text[:300]))
+            recs.append(dict(shape_ok=len(names) == len(wants) == case['n'], src='jsonfiles-' + pre, inl=[], outl=[],
+                             parses=True, roundtrip=True, text='%d files %d documents' % (len(names), len(wants))))
+        shutil.rmtree(outdir, ignore_errors=True)
     finally:
         pt.prettyPrint = orig
         shutil.rmtree(d, ignore_errors=True)
